@@ -66,6 +66,16 @@ CERTAIN = [
 # the isotropic scale: Dir(k,...,k) is H^k (DirectionalSobolevSpace.__getitem__ table)
 SCALE = {0: "L2", 1: "H1", 2: "H2", 3: "H3", inf: "HInf"}
 PER_FAMILY_CAP = 6  # reporting cap per key family (the exact totals are in counters["fail:<family>"])
+# witnesses that are always reported when they fail (the shortest statement of each known root cause)
+PINNED = {
+    "gt-converse/PP:HDiv|HCurl",
+    "ge-converse/PP:HDiv|HCurl",
+    "asym/DD:Dir(0,2)|Dir(2,0)",
+    "ref-lt/DP:Dir(2,0)|H1",
+    "nonbool-lt/DP:Dir(1,1)|HEin",
+    "member-ref/PD:H1|Dir(0,1)",
+    "member-ref/DP:Dir(2,2)|H1",
+}
 
 
 # -------------------------------------------------------------------------------------------------
@@ -291,8 +301,9 @@ class Checker:
             items = [uniq[k] for k in sorted(uniq)]
             run.count("fail:" + fam, len(items))
             print(f"  failing family {fam}: {len(items)} distinct inputs, e.g. {items[0][1]}")
-            for key, what, wit in items[:PER_FAMILY_CAP]:
-                run.violation(key, what, wit)
+            for n, (key, what, wit) in enumerate(items):
+                if n < PER_FAMILY_CAP or key in PINNED:
+                    run.violation(key, what, wit)
         self.fail = {}
 
     # ---------------------------------------------------------------------------------------
@@ -542,6 +553,17 @@ class Checker:
 
 
 def main(argv):
+    try:
+        _main(argv)
+    except Exception:  # harness/internal error: exit 2, never a VIOLATION line
+        import sys
+        import traceback
+
+        traceback.print_exc()
+        sys.exit(2)
+
+
+def _main(argv):
     run = Run(PID, argv)
     if run.args.replay:
         return replay(run)
